@@ -10,7 +10,9 @@ class Hung(Exception):
 
 
 class time_limit:
-    """Watchdog for code that may spin forever inside a single call (main thread only)."""
+    """Watchdog for code that may spin forever inside a single call (main thread only).
+    Counts CPU time of the process (ITIMER_VIRTUAL), so a descheduled process on a busy machine is not
+    mistaken for a spinning one."""
 
     def __init__(self, seconds):
         self.seconds = seconds
@@ -21,17 +23,17 @@ class time_limit:
         import threading
         if threading.current_thread() is threading.main_thread():
             def onalarm(signum, frame):
-                raise Hung(f"no return within {self.seconds}s")
-            self.old = signal.signal(signal.SIGALRM, onalarm)
-            signal.setitimer(signal.ITIMER_REAL, self.seconds)
+                raise Hung(f"no return within {self.seconds}s of CPU time")
+            self.old = signal.signal(signal.SIGVTALRM, onalarm)
+            signal.setitimer(signal.ITIMER_VIRTUAL, self.seconds)
             self.armed = True
         return self
 
     def __exit__(self, *a):
         import signal
         if self.armed:
-            signal.setitimer(signal.ITIMER_REAL, 0)
-            signal.signal(signal.SIGALRM, self.old)
+            signal.setitimer(signal.ITIMER_VIRTUAL, 0)
+            signal.signal(signal.SIGVTALRM, self.old)
         return False
 
 
